@@ -289,3 +289,9 @@ func (c *Conn) Readable() bool {
 
 // PeerBytesRead is the number of bytes the other end has read from this end.
 func (c *Conn) PeerBytesRead() int64 { return c.peer.BytesRead }
+
+// ParkedHere tells whether the goroutine is parked in a Read or Write on this end of the
+// connection (census oracles use it to tell whose goroutine is left behind).
+func (c *Conn) ParkedHere(g *G) bool {
+	return g.pendTag == "Read" && g.pendObj == c.in.obj || g.pendTag == "Write" && g.pendObj == c.out.obj
+}
